@@ -521,9 +521,42 @@ fn trace_for(seed: u64, thorough: bool, from: u64, vi: u64, ci: usize) -> Vec<Ca
     seq
 }
 
+/// set by --isolated: every replay attempt runs in a process of its own (state shared between threads - a static
+/// behind a lock - survives a fresh thread, not a fresh process)
+static ISOLATED: std::sync::atomic::AtomicBool = std::sync::atomic::AtomicBool::new(false);
+static VERIF_DIR: std::sync::OnceLock<String> = std::sync::OnceLock::new();
+static TMP_COUNTER: std::sync::atomic::AtomicU64 = std::sync::atomic::AtomicU64::new(0);
+
+/// the same question answered by a fresh process: `self --replay <file>` exits 1 and names the class
+fn sequence_violates_in_fresh_process(seq: &[Case], class: &Class) -> Option<Outcome> {
+    let dir = format!("{}/replays", VERIF_DIR.get().map(String::as_str).unwrap_or("/verif"));
+    let _ = std::fs::create_dir_all(&dir);
+    let path = format!("{dir}/tmp-{}-{}.json", std::process::id(), TMP_COUNTER.fetch_add(1, std::sync::atomic::Ordering::Relaxed));
+    let rf = ReplayFile {
+        property: "C18".into(), class: class.clone(), message: String::new(), seed: 0, value_index: 0, case_index: 0, case: seq.last()?.clone(), sequence: Some(seq.to_vec()),
+        minimised_from: None, minimise_steps: 0, rendering: String::new(), sink_holds: String::new(), returned_ok: false, history: vec![], finding_key: String::new(),
+    };
+    std::fs::write(&path, serde_json::to_string(&rf).ok()?).ok()?;
+    let out = std::process::Command::new(std::env::current_exe().ok()?).args(["--replay", &path, "--verif-dir", VERIF_DIR.get().map(String::as_str).unwrap_or("/verif")]).output().ok()?;
+    let _ = std::fs::remove_file(&path);
+    let text = String::from_utf8_lossy(&out.stdout);
+    let tag = format!("  violation : {class:?}: ");
+    let msg = text.lines().find_map(|l| l.strip_prefix(&tag))?;
+    if out.status.code() != Some(1) {
+        return None;
+    }
+    Some(Outcome {
+        reference_text: String::new(), sink_text: String::new(), returned_ok: false, history: vec![], presence: vec![], dims: vec![],
+        violation: Some((class.clone(), msg.to_string())), faults_fired: BTreeMap::new(),
+    })
+}
+
 /// Run a sequence of cases on a fresh thread (fresh thread-local state); the outcome of the last one if it
 /// violates `class`.
 fn sequence_violates(seq: &[Case], class: &Class) -> Option<Outcome> {
+    if ISOLATED.load(std::sync::atomic::Ordering::Relaxed) {
+        return sequence_violates_in_fresh_process(seq, class);
+    }
     let (seq, class) = (seq.to_vec(), class.clone());
     in_fresh_thread(move || {
         let mut last = None;
@@ -647,6 +680,9 @@ fn arg(args: &[String], name: &str) -> Option<String> {
 fn main() {
     let args: Vec<String> = std::env::args().collect();
     let verif_dir = arg(&args, "--verif-dir").unwrap_or_else(|| "/verif".to_string());
+    let _ = VERIF_DIR.set(verif_dir.clone());
+    let isolated = args.iter().any(|a| a == "--isolated");
+    ISOLATED.store(isolated, std::sync::atomic::Ordering::Relaxed);
     if let Some(path) = arg(&args, "--replay") {
         let txt = std::fs::read_to_string(&path).unwrap_or_else(|e| { eprintln!("cannot read {path}: {e}"); std::process::exit(2) });
         let rf: ReplayFile = serde_json::from_str(&txt).unwrap_or_else(|e| { eprintln!("bad replay file: {e}"); std::process::exit(2) });
@@ -679,7 +715,7 @@ fn main() {
     let thorough = tier == "thorough";
     let seed: u64 = arg(&args, "--seed").or_else(|| std::env::var("VERIF_SEED").ok()).and_then(|s| s.trim().parse().ok()).unwrap_or(20261002);
     let values: u64 = arg(&args, "--values").and_then(|s| s.parse().ok()).unwrap_or(if thorough { 300_000 } else { 1_000 });
-    let threads: u64 = arg(&args, "--threads").and_then(|s| s.parse().ok()).unwrap_or_else(|| std::thread::available_parallelism().map(|n| n.get() as u64).unwrap_or(4));
+    let threads: u64 = if isolated { 1 } else { arg(&args, "--threads").and_then(|s| s.parse().ok()).unwrap_or_else(|| std::thread::available_parallelism().map(|n| n.get() as u64).unwrap_or(4)) };
     let evidence_path = arg(&args, "--evidence").unwrap_or_else(|| format!("{verif_dir}/evidence/C18.json"));
     println!("C18 sink simulation: seed={seed} tier={tier} values={values} threads={threads} types={}", TYPES.len());
     // silence the default panic hook: panics inside the code under test are caught and classified
@@ -730,10 +766,10 @@ fn main() {
 
     // determinism: the same seed with another partition of the work must give the same multiset of histories
     let det_values = (values / 4).clamp(1, 2000);
-    let d1 = run_all(threads, det_values);
-    let d2 = run_all(3, det_values);
+    let d1 = if isolated { Stats::default() } else { run_all(threads, det_values) };
+    let d2 = if isolated { Stats::default() } else { run_all(3, det_values) };
     let deterministic = d1.digest == d2.digest && d1.cases == d2.cases && d1.violations.keys().eq(d2.violations.keys());
-    if !deterministic && st.violations.is_empty() && d1.violations.is_empty() && d2.violations.is_empty() {
+    if !isolated && !deterministic && st.violations.is_empty() && d1.violations.is_empty() && d2.violations.is_empty() {
         // every case is a pure function of its description as far as the harness is concerned, so this means the
         // code under test renders the same value differently depending on what the thread rendered before - without
         // (so far) breaking an invariant.  Not a verdict about C18; not silence either.
@@ -761,10 +797,9 @@ fn main() {
         let (class, msg) = o.violation.clone().unwrap();
         eprintln!("found {key} at value {vi} case {ci}: {}; minimising ...", msg.chars().take(300).collect::<String>());
         // does the case fail on its own (fresh thread, nothing rendered before)?
-        let alone = {
-            let (c, cl) = (case.clone(), class.clone());
-            in_fresh_thread(move || same_class(&c, &cl).is_some())
-        };
+        // does the case fail on its own?  Asked of a fresh process, so that neither thread-local nor global state left by
+        // the batch can answer for it.
+        let alone = sequence_violates_in_fresh_process(std::slice::from_ref(case), &class).is_some();
         let dir = format!("{verif_dir}/replays");
         let _ = std::fs::create_dir_all(&dir);
         let path = format!("{dir}/C18-seed{seed}-v{vi}-c{ci}.json");
@@ -772,12 +807,34 @@ fn main() {
             // it needs what the same thread rendered before: rebuild that history, confirm, shrink, report it whole
             let (wf, v, c) = (*worker_from, *vi, *ci);
             let full = in_fresh_thread(move || trace_for(seed, thorough, wf, v, c));
-            if sequence_violates(&full, &class).is_none() {
+            let confirmed = sequence_violates(&full, &class).is_some();
+            let minimised = if confirmed { Some(minimise_sequence(full.clone(), &class)) } else { None };
+            let replays = minimised.as_ref().map_or(false, |(seq, _, _)| isolated || sequence_violates_in_fresh_process(seq, &class).is_some());
+            if !replays {
+                if !isolated {
+                    // state shared between threads?  Search again with ONE worker in a process of its own, in which every
+                    // replay attempt is a fresh process too: the global order of renderings is then deterministic.
+                    eprintln!("the violation {key} seen at value {vi} case {ci} reproduces neither alone nor from the history of its worker: searching again with one worker and process-isolated replays ...");
+                    let child = std::process::Command::new(std::env::current_exe().expect("current_exe"))
+                        .args(["--isolated", "--tier", &tier, "--seed", &seed.to_string(), "--values", &(st.violations.values().map(|v| v.0).max().unwrap_or(*vi) + 1).to_string(), "--verif-dir", &verif_dir, "--evidence", &format!("{verif_dir}/replays/isolated-evidence.json")])
+                        .output();
+                    if let Ok(out) = child {
+                        let text = String::from_utf8_lossy(&out.stdout);
+                        if out.status.code() == Some(1) && text.contains("VIOLATION property=C18") {
+                            for l in text.lines().filter(|l| l.starts_with("violation class") || l.starts_with("  ") || l.starts_with("VIOLATION")) {
+                                println!("{l}");
+                            }
+                            println!("  (found by the process-isolated search: the state involved is shared between threads)");
+                            exit = 1;
+                            continue;
+                        }
+                    }
+                }
                 eprintln!("HARNESS ERROR: the violation {key} seen at value {vi} case {ci} reproduces neither alone nor from the history of its worker (values {wf}..={vi})");
                 std::process::exit(2);
             }
             let n0 = full.len();
-            let (seq, mo, steps) = minimise_sequence(full, &class);
+            let (seq, mo, steps) = minimised.expect("confirmed above");
             let last = seq.last().unwrap().clone();
             let rf = ReplayFile {
                 property: "C18".into(), class: class.clone(), message: mo.violation.as_ref().map(|v| v.1.clone()).unwrap_or(msg), seed, value_index: *vi, case_index: *ci,
